@@ -182,7 +182,8 @@ def instrument(conn: base.Conn, world: base.World):
 
     def dispatch(request, body=None):
         rec: Dict[str, Any] = {"urlparse": None, "handler": None, "is_admin": bool(h.state.is_admin(h.client_uuid)),
-                               "escaped": None}
+                               "escaped": None, "body": hx(body or b""),
+                               "target": hx(request.target) if request is not None else None}
         disp.append(rec)
         _CURRENT[0] = rec
         try:
@@ -565,6 +566,311 @@ def solo_answers(world_args, requests: List[bytes], verified: bool, with_uuid: b
     return out
 
 
+# --------------------------------------------------------------------------- several connections at once
+
+PEERS = [("10.2.0.%d" % k, 7000 + k) for k in range(3)]
+
+
+def _set_session(conn: base.Conn, verified: bool, with_uuid):
+    if verified:
+        conn.p.handler.is_encrypted = True
+        if with_uuid:
+            import uuid
+
+            ident = base.CANARY_USER_ID if with_uuid == "user" else base.CANARY_CTRL_ID
+            conn.p.handler.client_uuid = uuid.UUID(ident.decode())
+
+
+def _state_digest(world: base.World) -> Dict[str, Any]:
+    d = world.digest()
+    d.pop("snapshot_calls", None)
+    return json.loads(json.dumps(d))  # canonical JSON shapes (tuples -> lists) so that digests compare
+
+
+def run_multi(world_args, specs: List[Optional[Dict[str, Any]]], schedule: List[int], record: bool = True) -> Dict[str, Any]:
+    """Open one real HAPServerProtocol per non-None spec (slot k always gets peer PEERS[k]) on ONE
+    driver / registry and deliver the chunks in `schedule` order (an index = that connection's
+    next chunk)."""
+    world = base.World(*world_args)
+    try:
+        loop_errors: List[str] = []
+        world.loop.set_exception_handler(lambda loop, c: loop_errors.append(type(c.get("exception")).__name__ + ": " + str(c.get("message"))))
+        conns: Dict[int, base.Conn] = {}
+        rec: Dict[int, Any] = {}
+        for k, sp in enumerate(specs):
+            if sp is None:
+                continue
+            c = base.Conn(world, PEERS[k])
+            _set_session(c, sp["verified"], sp.get("with_uuid"))
+            conns[k] = c
+            rec[k] = instrument(c, world) if record else ([], [], [])
+        digest0 = _state_digest(world)
+        pos = {k: 0 for k in conns}
+        fed = {k: b"" for k in conns}
+        escaped: Dict[int, List[Tuple[str, str]]] = {k: [] for k in conns}
+        for k in schedule:
+            if k not in conns:
+                continue
+            c, sp = conns[k], specs[k]
+            if pos[k] >= len(sp["chunks"]):
+                continue
+            ch = sp["chunks"][pos[k]]
+            pos[k] += 1
+            if c.t.closed or escaped[k]:
+                continue
+            calls, _disp, cbs = rec[k]
+            cb = {"cb": "data", "data": hx(ch)}
+            cbs.append(cb)
+            fed[k] += ch
+            try:
+                c.p.data_received(ch)
+            except Exception as ex:  # noqa: BLE001
+                cb["escaped"] = type(ex).__name__
+                escaped[k].append(("data_received", type(ex).__name__))
+            calls.append(["cb_end"])
+            cb["writes"] = sum(1 for o in c.t.ops if o[0] == "write")
+            cb["closing"] = c.t.closed
+            world.drain()
+        digest1 = _state_digest(world)
+        per: Dict[int, Dict[str, Any]] = {}
+        for k, c in conns.items():
+            ref = reference_requests(fed[k])
+            written = b"".join(o[1] for o in c.t.ops if o[0] == "write")
+            resps, trailing = httpc.parse_responses(written, ref["methods"], eof=c.t.closed)
+            per[k] = {"responses": resps, "trailing": trailing, "closed": c.t.closed, "escaped": escaped[k],
+                      "registered": c.p in world.connections.values(), "ref": ref}
+        for k, c in conns.items():
+            calls, _disp, cbs = rec[k]
+            cbs.append({"cb": "lost"})
+            try:
+                c.p.connection_lost(None)
+            except Exception as ex:  # noqa: BLE001
+                cbs[-1]["escaped"] = type(ex).__name__
+                escaped[k].append(("connection_lost", type(ex).__name__))
+            calls.append(["cb_end"])
+            cbs[-1]["writes"] = sum(1 for o in c.t.ops if o[0] == "write")
+            cbs[-1]["closing"] = c.t.closed
+            world.drain()
+        for k, c in conns.items():
+            calls, disp, cbs = rec[k]
+            per[k]["registered_after_lost"] = c.p in world.connections.values()
+            per[k]["final_ops"] = [[o[0]] + ([hx(o[1])] if o[0] == "write" else []) for o in c.t.ops]
+            per[k]["transcript"] = {"h11": calls, "disp": disp, "callbacks": cbs}
+        return {"per": per, "digest0": digest0, "digest1": digest1, "loop_errors": loop_errors}
+    finally:
+        world.close()
+
+
+def _merge_expected(base_d: Dict[str, Any], solos: List[Dict[str, Any]]) -> Optional[Dict[str, Any]]:
+    """The state obtained by applying each connection's own effect to the initial state.
+    None if two connections' own effects conflict (the generator avoids that)."""
+    exp = json.loads(json.dumps(base_d))
+    for section, b in base_d.items():
+        keys = set(b) | {k for s_ in solos for k in s_[section]}
+        for key in keys:
+            b0 = b.get(key)
+            changed = [s_[section].get(key) for s_ in solos if s_[section].get(key) != b0]
+            if not changed:
+                continue
+            if isinstance(b0, list) or any(isinstance(x, list) for x in changed):
+                cur = set(map(json.dumps, b0 or []))
+                for x in changed:
+                    xs = set(map(json.dumps, x or []))
+                    cur = (cur | (xs - set(map(json.dumps, b0 or [])))) - (set(map(json.dumps, b0 or [])) - xs)
+                if cur:
+                    exp[section][key] = sorted(json.loads(x) for x in cur)
+                else:
+                    exp[section].pop(key, None)
+            else:
+                if any(x != changed[0] for x in changed):
+                    return None
+                if changed[0] is None:
+                    exp[section].pop(key, None)
+                else:
+                    exp[section][key] = changed[0]
+    return exp
+
+
+def judge_multi(ctx: Ctx, wa, specs, schedule, out: Dict[str, Any], replay: Dict[str, Any]):
+    """Each connection must get exactly what it gets when its stream is fed alone to a fresh
+    identical world; the accessory must end in the state produced by each connection's own
+    complete requests."""
+    problems: List[Tuple[str, str]] = []
+    solos: Dict[int, Dict[str, Any]] = {}
+    for k, sp in enumerate(specs):
+        if sp is None:
+            continue
+        alone = [sp if i == k else None for i in range(len(specs))]
+        solos[k] = run_multi(wa, alone, [k] * len(sp["chunks"]), record=False)
+    for k, o in out["per"].items():
+        role = "verified" if specs[k]["verified"] else "unverified"
+        for where, cls in o["escaped"]:
+            problems.append((f"C19:exception-escapes-callback:{cls}", f"{cls} propagates out of {where} of connection {k} ({role})"))
+        if o["trailing"]:
+            problems.append(("C19:malformed-response", f"connection {k}: {o['trailing']}"))
+        so = solos[k]["per"][k]
+        got = [(r.status, r.body) for r in o["responses"]]
+        want = [(r.status, r.body) for r in so["responses"]]
+        if got != want or o["closed"] != so["closed"]:
+            problems.append((
+                "C19:connection-affected-by-another-connection",
+                f"connection {k} ({role}) got statuses {[s_ for s_, _ in got]} closed={o['closed']} while other connections were "
+                f"talking, but {[s_ for s_, _ in want]} closed={so['closed']} for the same bytes alone",
+            ))
+        if o["closed"] and o["registered"]:
+            problems.append(("C19:closed-connection-still-registered", f"connection {k} closed but still registered"))
+    for e in out["loop_errors"]:
+        problems.append(("C19:exception-in-loop-callback", f"the event loop reported: {e}"))
+    exp = _merge_expected(out["digest0"], [solos[k]["digest1"] for k in sorted(solos)])
+    if exp is not None and exp != out["digest1"]:
+        diff = [f"{sec}.{key}: {out['digest1'][sec].get(key)!r} (own requests give {exp[sec].get(key)!r})"
+                for sec in exp for key in set(exp[sec]) | set(out["digest1"][sec]) if exp[sec].get(key) != out["digest1"][sec].get(key)]
+        problems.append(("C19:accessory-state-from-foreign-bytes",
+                         "accessory state differs from what each connection's own complete requests produce: " + "; ".join(diff[:4])))
+    if problems and not any(f.signature == problems[0][0] for f in ctx.failures):
+        ctx.fail(problems[0][0], "; ".join(d for _, d in problems[:4]) + f" [{replay.get('label')}]", replay)
+    return problems
+
+
+def _split(rng, raw: bytes, style: str) -> List[bytes]:
+    """Cut one request into TCP segments."""
+    hdr_end = raw.find(b"\r\n\r\n")
+    cuts = set()
+    if style in ("head|body", "head|body|body") and 0 < hdr_end + 4 < len(raw):
+        cuts.add(hdr_end + 4)
+    if style in ("body", "head|body|body") and hdr_end + 5 < len(raw):
+        cuts.add(rng.randrange(hdr_end + 5, len(raw)))
+    if style == "headers" and hdr_end > 2:
+        cuts.add(rng.randrange(1, hdr_end))
+    if style == "random" and len(raw) > 2:
+        cuts |= {rng.randrange(1, len(raw)) for _ in range(rng.randrange(1, 4))}
+    cs = sorted(cuts)
+    return [c for c in (raw[a:b] for a, b in zip([0] + cs, cs + [len(raw)])) if c]
+
+
+def _put(rng, body: bytes, chunked: bool, declared: Optional[int] = None) -> bytes:
+    head = b"PUT /characteristics HTTP/1.1\r\nHost: hap.local\r\nContent-Type: application/hap+json\r\n"
+    if chunked:
+        return head + b"Transfer-Encoding: chunked\r\n\r\n" + _chunked(rng, body, False)
+    return head + b"Content-Length: " + str(len(body) if declared is None else declared).encode() + b"\r\n\r\n" + body
+
+
+def _brightness_iid(world: base.World) -> int:
+    for acc in world.accessories():
+        for sv in acc.services:
+            if sv.display_name == "Lightbulb":
+                return acc.iid_manager.get_iid(sv.get_characteristic("Brightness"))
+    raise RuntimeError("no Lightbulb")
+
+
+def gen_multi(rng, world: base.World) -> Tuple[List[Dict[str, Any]], List[int], str]:
+    """2-3 connections; each verified one owns one characteristic and only writes / subscribes that
+    one with its own values, so the connections' effects are independent by construction."""
+    aid, on_iid = world.writable()
+    bright_iid = _brightness_iid(world)
+    owned = {0: ("Brightness", bright_iid, [11, 12, 13, 14]), 1: ("On", on_iid, [False, True, False, False])}
+    serial = world.char_ids()[3]
+    n = rng.choice([2, 2, 3])
+    ver = [rng.random() < 0.6 and k < 2 for k in range(n)]  # slot 2 has no characteristic of its own: unverified
+    if not any(ver) and rng.random() < 0.9:
+        ver[rng.randrange(2)] = True
+    specs = []
+    for k in range(n):
+        reqs: List[bytes] = []
+        if ver[k]:
+            _name, iid, vals = owned[k]
+            for j in range(rng.choice([1, 1, 2, 3])):
+                what = rng.choice(["write", "write", "subscribe", "write+ev", "read"])
+                if what == "read":
+                    reqs.append(b"GET /characteristics?id=%d.%d HTTP/1.1\r\nHost: hap.local\r\n\r\n" % serial)
+                    continue
+                item: Dict[str, Any] = {"aid": aid, "iid": iid}
+                if what in ("write", "write+ev"):
+                    item["value"] = vals[j]
+                if what in ("subscribe", "write+ev"):
+                    item["ev"] = True
+                body = json.dumps({"characteristics": [item]}).encode()
+                reqs.append(_put(rng, body, rng.random() < 0.3))
+        else:
+            for j in range(rng.choice([1, 1, 2, 3])):
+                what = rng.choice(["hostile-write", "hostile-write", "truncated-write", "get", "other"])
+                tgt_iid, hostile = rng.choice([(bright_iid, 99), (on_iid, True), (on_iid, False), (bright_iid, 1)])
+                hb = json.dumps({"characteristics": [{"aid": aid, "iid": tgt_iid, "value": hostile, "ev": True}]}).encode()
+                if what == "hostile-write":
+                    reqs.append(_put(rng, hb, rng.random() < 0.3))
+                elif what == "truncated-write":
+                    reqs.append(_put(rng, hb[: rng.randrange(1, len(hb))] if rng.random() < 0.5 else hb + b",", False, declared=4096))
+                    break  # nothing can follow an incomplete body
+                elif what == "get":
+                    reqs.append(b"GET /accessories HTTP/1.1\r\nHost: hap.local\r\n\r\n")
+                else:
+                    for _ in range(20):
+                        raw, _m = gen_request(rng, world, False)
+                        if b"/pair-" not in raw and len(raw) < 3000:
+                            reqs.append(raw)
+                            break
+        chunks: List[bytes] = []
+        for rq in reqs:
+            chunks += _split(rng, rq, rng.choice(["head|body", "head|body", "body", "head|body|body", "headers", "random", "whole"]))
+        specs.append({"verified": ver[k], "with_uuid": "admin" if ver[k] else False, "chunks": chunks})
+    schedule = [k for k, sp in enumerate(specs) for _ in sp["chunks"]]
+    rng.shuffle(schedule)
+    label = "multi:" + "+".join("V" if v else "u" for v in ver)
+    return specs, schedule, label
+
+
+def boundary_multi(world: base.World) -> List[Tuple[List[Dict[str, Any]], List[int], str]]:
+    """A verified controller whose PUT arrives in two segments, an unverified peer in between."""
+    aid, on_iid = world.writable()
+    body_a = json.dumps({"characteristics": [{"aid": aid, "iid": on_iid, "ev": True}]}).encode()
+    cut = body_a.index(b"[") + 1
+    head = lambda n: b"PUT /characteristics HTTP/1.1\r\nHost: x\r\nContent-Length: " + str(n).encode() + b"\r\n\r\n"  # noqa: E731
+    b_write = json.dumps({"aid": aid, "iid": on_iid, "value": False}).encode()
+    b_full = b'{"characteristics":[' + b_write + b"]}"
+    b_own = json.dumps({"characteristics": [{"aid": aid, "iid": _brightness_iid(world), "value": 42}]}).encode()  # Brightness
+    A = lambda chunks: {"verified": True, "with_uuid": "admin", "chunks": chunks}  # noqa: E731
+    B = lambda chunks: {"verified": False, "with_uuid": False, "chunks": chunks}  # noqa: E731
+    return [
+        ([A([head(len(body_a)), body_a]), B([head(4096) + b'{"characteristics":[' + b_write + b'],"x":'])], [0, 1, 0],
+         "multi: peer's partial body before the controller's body"),
+        ([A([head(len(body_a)) + body_a[:cut], body_a[cut:]]), B([head(len(b_full)) + b_full])], [0, 1, 0],
+         "multi: peer's complete request between two segments of the controller's body"),
+        ([A([head(len(body_a)) + body_a[:cut], body_a[cut:]]), B([head(4096), b_write + b","])], [1, 0, 1, 0],
+         "multi: peer's body bytes between two segments of the controller's body"),
+        ([A([head(len(body_a)), body_a]), A([head(len(b_own)), b_own])], [0, 1, 0, 1],
+         "multi: two controllers, heads then bodies"),
+    ]
+
+
+def run_multi_cases(ctx: Ctx, n_random: int, lines, metas, obss):
+    st = ctx.stats
+    rng = ctx.rng
+    probe_world = base.World(True, "sync")
+    try:
+        todo = [((True, "sync"), sp, sch, label) for sp, sch, label in boundary_multi(probe_world)]
+        for _ in range(n_random):
+            sp, sch, label = gen_multi(rng, probe_world)
+            todo.append(((True, "sync"), sp, sch, label))
+    finally:
+        probe_world.close()
+    for wa, specs, schedule, label in todo:
+        out = run_multi(wa, specs, schedule)
+        replay = {"kind": "multi", "world": list(wa), "schedule": schedule, "label": label,
+                  "specs": [{"verified": sp["verified"], "with_uuid": sp["with_uuid"], "chunks": [hx(c) for c in sp["chunks"]]} for sp in specs]}
+        problems = judge_multi(ctx, wa, specs, schedule, out, replay)
+        st.case(["multi", replay["specs"], schedule], True)
+        st.hit("op", label.split(" ")[0] if label.startswith("multi:") and " " not in label else "multi:boundary")
+        st.hit("outcome", "multi:" + ("PROBLEM" if problems else "each-connection-as-alone"))
+        if out["digest0"] != out["digest1"]:
+            st.hit("outcome", "multi:state-changed-by-own-requests")
+        for k, o in out["per"].items():
+            o2 = dict(o, closed=True)
+            lines.append(model_line(o2, specs[k]["verified"], specs[k]["with_uuid"]))
+            metas.append({"label": f"{label} / connection {k}", "verified": specs[k]["verified"], "with_uuid": specs[k]["with_uuid"],
+                          "chunks": replay["specs"][k]["chunks"][:8], "schedule": schedule, "world": list(wa)})
+            obss.append(o2)
+
+
 # --------------------------------------------------------------------------- oracle
 
 
@@ -667,7 +973,7 @@ def model_line(obs: Dict[str, Any], verified: bool, with_uuid: bool) -> Dict[str
                 c[k] = cb[k]
         cbs.append(c)
     disp = [{"urlparse": d["urlparse"], "handler": d["handler"], "is_admin": d["is_admin"],
-             "self_gone": bool(d.get("self_gone"))} for d in t["disp"]]
+             "self_gone": bool(d.get("self_gone")), "body": d.get("body"), "target": d.get("target")} for d in t["disp"]]
     return {"layer": "pump", "op": "transcript", "verified": verified, "has_uuid": bool(with_uuid) and verified,
             "h11": t["h11"], "disp": disp, "callbacks": cbs}
 
@@ -741,7 +1047,7 @@ def cases(ctx: Ctx, n_random: int):
     return out
 
 
-def run(ctx: Ctx, model: bool = True, n: Optional[int] = None):
+def run(ctx: Ctx, model: bool = True, n: Optional[int] = None, n_multi: Optional[int] = None):
     st = ctx.stats
     st.rule = (
         "one case = one byte stream (1-5 requests from the structured generator: valid routes and bodies, junk bodies, "
@@ -749,7 +1055,7 @@ def run(ctx: Ctx, model: bool = True, n: Optional[int] = None):
         "chunking) fed to a fresh real HAPServerProtocol in a fresh world, unverified or as plaintext in a verified "
         "session. Non-trivial = the pump reached a dispatch, a protocol error or a close; distinct by (mode, bytes, chunking)."
     )
-    n = ctx.n(2000, 30000) if n is None else n
+    n = ctx.n(1600, 28000) if n is None else n
     lines, metas, obss = [], [], []
     order_budget = ctx.n(60, 1500)
     for (wa, verified, with_uuid, chunks, meta) in cases(ctx, n):
@@ -791,6 +1097,7 @@ def run(ctx: Ctx, model: bool = True, n: Optional[int] = None):
         metas.append({"label": replay["label"], "verified": verified, "with_uuid": with_uuid, "chunks": replay["chunks"][:8],
                       "world": list(wa)})
         obss.append(obs)
+    run_multi_cases(ctx, ctx.n(220, 4000) if n_multi is None else n_multi, lines, metas, obss)
     if not model:
         return
     answers = run_model_parallel("C19", lines)
@@ -798,7 +1105,7 @@ def run(ctx: Ctx, model: bool = True, n: Optional[int] = None):
     for meta, m, obs in zip(metas, answers, obss):
         st.traces_validated += 1
         ok = compare(ctx, meta, m, obs)
-        if ok and shown < 3 and len(obs["transcript"]["disp"]) >= 1:
+        if ok and shown < 3 and len(obs["transcript"]["disp"]) >= 1 and "probe" in obs:
             shown += 1
             st.sample({"case": meta, "h11_calls": len(obs["transcript"]["h11"]), "dispatches": len(obs["transcript"]["disp"]),
                        "model": {"answered": m["answered"], "eoms": m["eoms"], "out": [o[0] for o in m["out"]]},
@@ -808,10 +1115,28 @@ def run(ctx: Ctx, model: bool = True, n: Optional[int] = None):
 
 def search(ctx: Ctx):
     """Oracle-only search at the thorough budget (the proof or the tie broke)."""
-    run(ctx, model=False, n=4000)
+    run(ctx, model=False, n=3000, n_multi=1500)
 
 
 def replay(ctx: Ctx, r):
+    if r.get("kind") == "multi":
+        wa = tuple(r["world"])
+        specs = [{"verified": sp["verified"], "with_uuid": sp["with_uuid"], "chunks": [bytes.fromhex(c) for c in sp["chunks"]]}
+                 for sp in r["specs"]]
+        out = run_multi(wa, specs, r["schedule"])
+        judge_multi(ctx, wa, specs, r["schedule"], out, r)
+        pos = [0] * len(specs)
+        for k in r["schedule"]:
+            if pos[k] < len(specs[k]["chunks"]):
+                print(f"  connection {k} ({'verified' if specs[k]['verified'] else 'unverified'}) data_received", specs[k]["chunks"][pos[k]][:110])
+                pos[k] += 1
+        for k, o in out["per"].items():
+            print(f"connection {k}: responses {[x.status for x in o['responses']]} closed={o['closed']} escaped={o['escaped']}")
+        print("state changed:", {sec: {k: v for k, v in out["digest1"][sec].items() if out["digest0"][sec].get(k) != v} for sec in out["digest1"]})
+        for f in ctx.failures:
+            print("FAILS:", f.signature, f.description)
+        print("verdict:", "property violated on this input" if ctx.failures else "holds on this input")
+        return 1 if ctx.failures else 0
     wa = tuple(r["world"])
     chunks = [bytes.fromhex(c) for c in r["chunks"]]
     world = base.World(*wa)
